@@ -421,13 +421,13 @@ def r6_store_key(ctx, prog, rule_id='C11.R6'):
             r.ok(g['qname'], site, 'created under %s' % hs[0], file=g['file'], line=evs[0][3])
 
 
-def r7_session_ids(ctx, prog):
+def r7_session_ids(ctx, prog, rule_id='C11.R7'):
     """A session handle is the position of the Session in SessionManager's table plus one: getSession(h) returns entry h-1.  openSession must therefore give a new session exactly the
     number of the entry it was stored in, for every pattern of free and used entries (holes left by closed sessions included) - otherwise the new handle denotes another, open session."""
     import itertools
     from engine.interp import St
     from rules.c03 import _table_env, _table_cenv
-    r = ctx.rule('C11.R7', 'a new session gets the number of the table entry it is stored in; getSession reads that entry', floor=10, engine='E1 finite-domain, concrete small vector')
+    r = ctx.rule(rule_id, 'a new session gets the number of the table entry it is stored in; getSession reads that entry', floor=10, engine='E1 finite-domain, concrete small vector')
     f = prog.fn('SessionManager::openSession')
     ctx.analysed(f)
     for occ in itertools.product([0, 1], repeat=3):
@@ -564,6 +564,8 @@ def run(ctx):
     r7_session_ids(ctx, prog)
     r8_store_events(ctx, prog)
     r9_records_immutable(ctx, prog)
+    from rules import c08
+    c08.r5_gates(ctx, prog, rule_id='C11.R10')
 
 
 MUTANTS = [
